@@ -27,7 +27,7 @@ TD_MAX = 999_999_999
 
 META = {
     "property": "C15",
-    "proof_modules": ["PyodaProofs.C15", "PyodaProofs.C15Lemmas", "PyodaProofs.C15Aware"],
+    "proof_modules": ["PyodaProofs.C15", "PyodaProofs.C15Lemmas", "PyodaProofs.C15Aware", "PyodaProofs.GenAgreeC15"],
     "drivers": ["drv_bridge"],
     "theorems": [
         "Pyoda.C15.date_from_to_id",
@@ -69,8 +69,18 @@ META = {
         "Pyoda.C15.odt_aware_to_id",
         "Pyoda.C15.ldt_any",
         "Pyoda.C15.time_any_from_to_id",
+        # agreement of the definitions generated from the Python source (tools/py2lean.py) with the model
+        "Pyoda.GenAgree.C15.gen_toTicksNaive_eq", "Pyoda.GenAgree.C15.gen_toTicksAware_eq",
+        "Pyoda.GenAgree.C15.gen_toTicksTd_eq", "Pyoda.GenAgree.C15.gen_LocalDate_toDate_eq",
+        "Pyoda.GenAgree.C15.gen_LocalDate_fromDate_eq", "Pyoda.GenAgree.C15.gen_LocalTime_toTime_eq",
+        "Pyoda.GenAgree.C15.gen_LocalTime_fromTime_eq", "Pyoda.GenAgree.C15.gen_LocalDateTime_fromNaive_eq",
+        "Pyoda.GenAgree.C15.gen_LocalDateTime_fromAware_eq", "Pyoda.GenAgree.C15.gen_Instant_toDatetimeUtc_eq",
+        "Pyoda.GenAgree.C15.gen_Instant_fromAwareNaive_eq", "Pyoda.GenAgree.C15.gen_Instant_fromAware_eq",
+        "Pyoda.GenAgree.C15.gen_Duration_fromTimedelta_eq", "Pyoda.GenAgree.C15.gen_Duration_toTimedelta_eq",
+        "Pyoda.GenAgree.C15.gen_Offset_toTimedelta_eq",
     ],
     "trusted_base": [
+        "translator tie (tools/py2lean.py; GenAgreeC15): _to_ticks (naive, aware, timedelta), LocalDate.to_date/from_date, LocalTime.to_time/from_time, LocalDateTime.from_naive_datetime (naive / aware argument), Instant.to_datetime_utc/from_aware_datetime (naive / aware argument), Duration.from_timedelta/to_timedelta, Offset.to_timedelta are re-translated from the source on every run and proved equal to the Bridge model. The stdlib objects are the model's structures; their constructors/accessors/operators (date(y,m,d) as an ordinal, timedelta(...) normalisation, time(...) validation, date/datetime arithmetic, tzinfo.utcoffset) are the hand-written functions of PyodaGen/GlueC15.lean (what CPython does: correspondence bridge.ops); a naive and an aware datetime are different argument types of the translation. Outside the tie: LocalDateTime.to_naive_datetime and OffsetDateTime.to_aware_datetime (they go through the Gregorian year/month/day fields, which the model itself replaces by the ordinal — trusted base), OffsetDateTime.from_aware_datetime (walrus on tzinfo / isinstance of its answer), Offset.from_timedelta (float total_seconds()), a tzinfo whose utcoffset() answers None. Duration.from_timedelta adds days+seconds before converting the microseconds (the model converts all three first): the same unless from_microseconds raises, which it cannot for 0 <= microseconds < 10^6 (hypothesis of gen_Duration_fromTimedelta_eq)",
         "CPython datetime/timedelta arithmetic and normalisation as modelled by PyTimedelta.ofUs / PyDateTime.addTd / sub (sampled by every bridge op)",
         "Gregorian year/month/day <-> day number of both libraries (C01/C02 and the stdlib): the model passes day number <-> ordinal directly, `gregorian.year < 1` is `ordinal < 1`",
         "Offset.from_timedelta goes through float total_seconds()*1e7; exact outcome (truncated whole seconds, range test) on the timedelta domain is sampled around every whole second and the +-18 h edge",
